@@ -82,7 +82,11 @@ Record ssh_cfg := {
 Record ssh_oracle := {
   o_kex_ok      : bool;               (* start_client() returned / raised SSHException *)
   o_server_key  : key;                (* get_remote_server_key() *)
-  o_cb          : bool;               (* what the caller's callback answers when asked *)
+  o_cb          : hsel -> key -> bool;
+     (* the caller's unknown_host_cb as a function of its two arguments: the host name it is
+        called with (relative to the connection: the dialled host, "[host]:port", anything
+        else) and the key whose fingerprint it is shown.  A fingerprint is modelled by the key
+        it is the digest of (digest collisions are outside the model). *)
   o_loads       : list bool;          (* successive PKey.from_path results (true = a key was read) *)
   o_agent_keys  : nat;                (* number of keys paramiko.Agent().get_keys() offers *)
   o_default_keys: nat;                (* number of existing ~/.ssh/id_* , ~/ssh/id_* files *)
@@ -92,13 +96,30 @@ Record ssh_oracle := {
   o_hello_ok    : bool                (* _post_connect returned *)
 }.
 
+(* Callbacks the correspondence check can describe as data (the theorems quantify over ALL
+   functions o_cb; these are the ones the runner is driven with): a constant verdict, "accept
+   only this fingerprint", "accept only when called with this host name", both. *)
+Inductive cb_policy :=
+| CbConst (b : bool)
+| CbOnlyKey (k : key)
+| CbOnlyHost (s : hsel)
+| CbHostKey (s : hsel) (k : key).
+Definition cb_of_policy (p : cb_policy) : hsel -> key -> bool :=
+  fun s k =>
+    match p with
+    | CbConst b => b
+    | CbOnlyKey k' => key_eqb k' k
+    | CbOnlyHost s' => hsel_eqb s' s
+    | CbHostKey s' k' => hsel_eqb s' s && key_eqb k' k
+    end.
+
 (* ------------------------------------------------------------------ traces, results *)
 Inductive method := MKeyFile (i : nat) | MAgent (i : nat) | MDefaultKey (i : nat) | MPassword.
 Inductive how := ByKnownHosts (s : hsel) | ByPinned | ByCallback.
 
 Inductive event :=
 | StartClient
-| CallbackAsked                                 (* the caller's callback is invoked *)
+| CallbackAsked (host : hsel) (fp : key)         (* the caller's callback is invoked with (host, fingerprint of fp) *)
 | HostKeyAccepted (h : how)                     (* ghost: the l.320-339 block falls through *)
 | AuthAttempt (m : method) (ok : bool)          (* auth_publickey / auth_password and its verdict *)
 | OpenSession
@@ -109,18 +130,23 @@ Inductive event :=
 | TlsLoadCert | TlsLoadCA | TlsConnect
 | Handshake (verify_required check_hostname use_server_hostname : bool).
 
-Inductive exn := SSHUnknownHost | Authentication | SSHError | TLSErr | Other.
-   (* Other: an exception connect does not convert (paramiko.SSHException of open_session,
+Inductive exn := SSHUnknownHost (host : hsel) (fp : key) | Authentication | SSHError | TLSErr | Other.
+   (* SSHUnknownHostError carries .host and .fingerprint (of the key fp);
+      Other: an exception connect does not convert (paramiko.SSHException of open_session,
       SessionError of the hello exchange) *)
 Inductive result := Ok | Exn (e : exn).
 Definition trace := list event.
 
 (* ------------------------------------------------------------------ SSH: host key *)
-(* which callback decides: profile override wins over the caller's, else the default (False) *)
+(* l.343 `unknown_host_cb(host, fingerprint)`: the callback in force is applied to the host
+   name that was dialled (not the "[host]:port" lookup name) and to the fingerprint computed
+   at l.322 from get_remote_server_key(), i.e. of the key the server PRESENTED.
+   Which callback decides: profile override wins over the caller's, else the default (False) *)
+Definition cb_host : hsel := HHost.
 Definition cb_verdict (c : ssh_cfg) (o : ssh_oracle) : bool :=
-  if c_profile_cb c then true else if c_user_cb c then o_cb o else false.
-Definition cb_events (c : ssh_cfg) : trace :=
-  if c_profile_cb c then [] else if c_user_cb c then [CallbackAsked] else [].
+  if c_profile_cb c then true else if c_user_cb c then o_cb o cb_host (o_server_key o) else false.
+Definition cb_events (c : ssh_cfg) (o : ssh_oracle) : trace :=
+  if c_profile_cb c then [] else if c_user_cb c then [CallbackAsked cb_host (o_server_key o)] else [].
 
 (* the HostKeys object at l.336: loaded only when hostkey_verify, updated only without a pin *)
 Definition kh_at_check (c : ssh_cfg) : list kh_entry :=
@@ -144,8 +170,8 @@ Definition hostkey_phase (c : ssh_cfg) (o : ssh_oracle) : trace * bool :=
     match known_how c (o_server_key o) with
     | Some h => ([HostKeyAccepted h], true)
     | None =>
-        if cb_verdict c o then (cb_events c ++ [HostKeyAccepted ByCallback], true)
-        else (cb_events c, false)
+        if cb_verdict c o then (cb_events c o ++ [HostKeyAccepted ByCallback], true)
+        else (cb_events c o, false)
     end
   else ([], true).
 
@@ -201,7 +227,9 @@ Definition ssh_connect (c : ssh_cfg) (o : ssh_oracle) : trace * result :=
       if negb (o_kex_ok o) then ([StartClient], Exn SSHError)
       else
         let '(t1, accepted) := hostkey_phase c o in
-        if negb accepted then (StartClient :: t1, Exn SSHUnknownHost)
+        if negb accepted then
+          (* l.344 SSHUnknownHostError(known_hosts_lookups[0], fingerprint): the dialled host, the presented key *)
+          (StartClient :: t1, Exn (SSHUnknownHost HHost (o_server_key o)))
         else
           let '(t2, authed) := run_auth (auth_plan c o) (o_loads o) (o_auths o) in
           if negb authed then (StartClient :: t1 ++ t2, Exn Authentication)
